@@ -141,8 +141,21 @@ theorem extractBlock_none {p : Bytes} {n szx : Nat} (h : p.length ≤ n * blockS
 -- equations of `step` / `completeBlock2` ----------------------------------------------------
 
 theorem step_b1_none {cfg : Cfg} {st : B1State} {cur : Req} {r : Resp} (h : r.block1 = none) :
-    step cfg (.b1 st cur) r = completeBlock2 cfg cur r := by
+    step cfg (.b1 st cur) r =
+      if r.code == codeContinue then .done (.error .unexpectedBlock1) else completeBlock2 cfg cur r := by
   simp only [step, h]
+
+/-- a response without Block1 option and with another code than 2.31 ends the upload phase -/
+theorem step_b1_none_final {cfg : Cfg} {st : B1State} {cur : Req} {r : Resp} (h : r.block1 = none)
+    (hc : r.code ≠ codeContinue) : step cfg (.b1 st cur) r = completeBlock2 cfg cur r := by
+  rw [step_b1_none h]
+  simp [hc]
+
+/-- 2.31 without Block1 option: protocol error -/
+theorem step_b1_none_continue {cfg : Cfg} {st : B1State} {cur : Req} {r : Resp} (h : r.block1 = none)
+    (hc : r.code = codeContinue) : step cfg (.b1 st cur) r = .done (.error .unexpectedBlock1) := by
+  rw [step_b1_none h]
+  simp [hc]
 
 theorem step_b1_some {cfg : Cfg} {st : B1State} {cur : Req} {r : Resp} {a : BlockOpt}
     (h : r.block1 = some a) :
@@ -166,7 +179,8 @@ theorem step_b2_none {cfg : Cfg} {t : Req} {a : Asm} {cur : Req} {r : Resp} (h :
 theorem step_b2_some {cfg : Cfg} {t : Req} {a : Asm} {cur : Req} {r : Resp} {b : BlockOpt}
     (h : r.block2 = some b) :
     step cfg (.b2 t a cur) r =
-      if r.code ≠ a.code then .done (.error .unexpectedBlock2)
+      if szxGrows cur b then .done (.error .unexpectedBlock2)
+      else if r.code ≠ a.code then .done (.error .unexpectedBlock2)
       else if !b.validFor r.payload.length then .done (.error .unexpectedBlock2)
       else if b.start ≠ a.payload.length then .done (.error .notImplemented)
       else if r.etag ≠ a.etag then .done (.error .resourceChanged)
